@@ -5,6 +5,7 @@ instances on the typed program in ctx.P and registers them with ctx.ok / ctx.bad
 Anchors are found by role (types, signatures, ADTs); a role that does not resolve
 is reported (fail closed). Violation keys never contain line numbers.
 """
+import re
 from .core import q
 from .core.q import ANY, expect_term, site, peel, arm_syms, arms_by_variant
 from .core.norm import Norm, show, cshort, subterms, pat_variants, pat_repr, as_for_loop
@@ -280,6 +281,23 @@ def cow_unwrap(ctx, rid):
     expect_term(ctx, rid, "cow-unwrap", m, got, exp, "Cow<T> is transparent: resolved type replaced by its first parameter's type")
 
 
+def term_arms(N, fn, enum, param=0):
+    """variant -> the arm's value as text, read off the function's whole term when that is one match on the parameter (so that what surrounds
+    the match in the source - a constructor applied once after it, early returns in arms - is already in the arms); {} otherwise.
+    The variant's fields read `A.field` as in the arm-by-arm reading."""
+    ft = N.term(fn["body"])
+    if ft[0] != "match" or ft[1] != ("param", param):
+        return {}
+    out = {}
+    for p, g, b in ft[2]:
+        m = re.match(r"%s::(\w+)" % enum, p)
+        if g is not None or not m or m.group(1) in out:
+            return {}
+        v = m.group(1)
+        out[v] = show(b, 10 ** 6).replace("P%d@%s::%s." % (param, enum, v), "A.")
+    return out
+
+
 # ------------------------------------------------------------ C01.13 .. C01.20 ----
 def syn_arms(ctx, rid, strict_alloc=True):
     """K2+K4 on TypePathType::to_syn_type: per-variant templates and child conversions with the same alloc path
@@ -317,11 +335,12 @@ def syn_arms(ctx, rid, strict_alloc=True):
         "Compact": "compact: bare inner type in field position (attribute carries the marker), Compact<inner> elsewhere",
         "BitVec": "bit sequence -> DecodedBits<Store, Order> (store first)",
     }
+    by_term = term_arms(N, fn, "TypePathType")
     for v, e in exp.items():
         arm = arms.get(v)
         if arm is None:
             continue
-        t = N.term(arm["body"], arm_syms(arm["pat"]))
+        t = by_term.get(v) if by_term.get(v) is not None else N.term(arm["body"], arm_syms(arm["pat"]))
         expect_term(ctx, rid, "syn/" + v, arm, t, e, why[v])
     # the wrapper: TypePath::to_syn_type dispatches Parameter -> its tokens, Type -> this conversion
     w = q.fn1(ctx.P, "type_path::TypePath::to_syn_type", "scale_typegen")
